@@ -7,7 +7,7 @@
 From Coq Require Import ZArith List Bool Lia.
 From Low Require Import Lib.MachInt Lib.Bits Lib.BitSeq Model.TailBitmap
   Spec.TailBitmapSpec Spec.TailBitmapInv Spec.TailBitmapObs
-  Proofs.TailBitmapProofs Proofs.TailBitmapHist Proofs.TailBitmapChecker Run.C15.
+  Proofs.TailBitmapProofs Proofs.TailBitmapHist Proofs.TailBitmapChecker Proofs.TailBitmapSound Run.C15.
 Import ListNotations.
 Open Scope Z_scope.
 
@@ -192,12 +192,16 @@ Proof.
     destruct (run_proto s1 t) as [| |l1] eqn:E2; try discriminate.
     inversion E; subst l. cbn [check_run_lit fst snd].
     destruct (pstep_Inv _ o H s p s1 r I E1) as [I1 _].
-    assert (Inow : Inv ((b || is_compact p) = true) o (memP (abs_step H p)) s1).
+    assert (Inow : Inv ((b || touches_head (Offset s) p) = true) o (memP (abs_step H p)) s1).
     { destruct b; cbn [orb]; [exact I1|].
-      destruct p; cbn [is_compact]; try (eapply Inv_weaken; [|exact I1]; discriminate).
-      cbn [pstep step] in E1. inversion E1; subst s1 r.
-      destruct (Inv_Compact _ o _ s I) as (IC & _). cbn [abs_step].
-      eapply Inv_weaken; [|exact IC]. intros _. exact Logic.I. }
+      destruct (touches_head (Offset s) p) eqn:Th; [|eapply Inv_weaken; [|exact I1]; discriminate].
+      assert (Hh : head_ok (Words s1)).
+      { destruct p; cbn [touches_head] in Th; try discriminate.
+        - apply andb_true_iff in Th. destruct Th as [A B]. apply Z.leb_le in A. apply Z.ltb_lt in B.
+          cbn [pstep step] in E1. destruct (Set_ s idx) as [s2|] eqn:ES; [|discriminate].
+          inversion E1; subst s1 r. apply (Set_head s idx s2); [lia|exact ES].
+        - cbn [pstep step] in E1. inversion E1; subst s1 r. apply Compact_head. }
+      eapply Inv_weaken; [|exact (Inv_strengthen _ o _ s1 Hh I1)]. intros _. exact Logic.I. }
     rewrite (check_step_gen_ok _ _ o H s p s1 r I Inow E1). cbn [andb].
     apply IH; [|exact E2].
     destruct (head_okb (Words s1)) eqn:Hh.
@@ -210,7 +214,7 @@ Lemma model_literal_accepted off ws ps l :
   model_literal off ws ps = OOk l -> check_literal off ws ps l = true.
 Proof.
   unfold model_literal, check_literal, offset_in_domain. intros E.
-  destruct ((0 <=? off) && (off <=? BIG) && (off mod 64 =? 0) && words_okb ws && (zlen ws <=? 2 ^ 16)) eqn:D;
+  destruct ((- BIG <=? off) && (off <=? BIG) && (off mod 64 =? 0) && words_okb ws && (zlen ws <=? 2 ^ 16)) eqn:D;
     [|discriminate].
   apply andb_true_iff in D. destruct D as [D _]. apply andb_true_iff in D. destruct D as [D Dw].
   apply andb_true_iff in D. destruct D as [_ D]. apply Z.eqb_eq in D. apply words_okb_ok in Dw.
@@ -218,4 +222,23 @@ Proof.
   { eapply Inv_ext; [intros j; symmetry; apply memP_hist_of_words|].
     eapply Inv_weaken; [|exact (lit_Inv off ws 0 D Dw)]. apply head_okb_iff. }
   exact (run_proto_lit_ok off ps _ _ _ l I E).
+Qed.
+
+(** ** the checker of the literal operation decides the Prop-level property of an observed history *)
+
+Lemma lit_TInvW off ws : off mod 64 = 0 -> words_ok ws ->
+  TInvW off (memP (hist_of_words off ws)) off ws.
+Proof.
+  intros Ho Hw.
+  assert (I : Inv (head_ok ws) off (memP (hist_of_words off ws)) (mkTB off ws 0)).
+  { eapply Inv_ext; [intros j; symmetry; apply memP_hist_of_words|]. apply lit_Inv; assumption. }
+  exact (Inv_TInvW _ _ _ _ I).
+Qed.
+
+Lemma check_literal_iff off ws ps obs : off mod 64 = 0 -> words_ok ws ->
+  Forall (fun ob => words_ok (snd (fst ob))) obs ->
+  (check_literal off ws ps obs = true <-> lit_obs_ok off ws ps obs).
+Proof.
+  intros Ho Hw Hobs. unfold check_literal, lit_obs_ok.
+  apply check_run_lit_iff; [apply s_head_okb_iff|apply lit_TInvW; assumption|exact Hobs].
 Qed.
